@@ -9,6 +9,7 @@ import (
 	dbsql "database/sql"
 	"encoding/json"
 	"fmt"
+	"strings"
 	"sync"
 	"sync/atomic"
 	"time"
@@ -123,6 +124,77 @@ func c10CommitBlocked(c *Ctx, l *lib.Lean, admin string) error {
 	if del.Status >= 200 && del.Status < 300 && after == "pass user" {
 		r.fail("DELETE /api/v1/access/<token> answered success while its COMMIT could not happen: the token still authenticates", "an error answer, or the token refused afterwards",
 			fmt.Sprintf("DELETE -> %d %s; afterwards the token -> %s", del.Status, del.Body, after), "c10-revocation-reported-but-not-effective")
+	}
+	return c10StoreUnreadable(r, adminHdr)
+}
+
+// c10StoreUnreadable: a token is created, used and revoked (all answered with success); then another connection takes
+// the SQLite file exclusively, so that the token lookup can only fail. The revoked token and a never-issued one are
+// presented over HTTP and on the websocket handshake, in parallel (each waits for SQLite's busy timeout). An answer
+// of failure is fine; "accepted" is not: a revoked token is refused from the revocation on, whatever the store does.
+func c10StoreUnreadable(r *c10Run, adminHdr string) error {
+	c := r.c
+	_, resp := r.httpDo("POST", c09Prefix+"/access", adminHdr, true)
+	var tok struct {
+		Token string `json:"token"`
+	}
+	if resp.Status != 200 || json.Unmarshal([]byte(resp.Body), &tok) != nil || tok.Token == "" {
+		return nil
+	}
+	if r.authGet("Bearer "+tok.Token) != "pass user" {
+		return nil
+	}
+	if _, del := r.httpDo("DELETE", c09Prefix+"/access/"+tok.Token, adminHdr, true); del.Status < 200 || del.Status >= 300 {
+		return nil
+	}
+	if got := r.authGet("Bearer " + tok.Token); got == "pass user" {
+		return nil // reported by the ordinary stream
+	}
+	lk, err := dbsql.Open("sqlite3", "file:"+r.file)
+	if err != nil {
+		return nil
+	}
+	defer lk.Close()
+	lk.SetMaxOpenConns(1)
+	if _, err := lk.Exec("BEGIN EXCLUSIVE"); err != nil {
+		c.R.Notes = append(c.R.Notes, "c10 unreadable store: "+err.Error())
+		return nil
+	}
+	defer lk.Exec("ROLLBACK") //nolint:errcheck
+	never := tok.Token[:len(tok.Token)-1] + "Z"
+	if never == tok.Token {
+		never = tok.Token[:len(tok.Token)-1] + "Y"
+	}
+	type probe struct{ what, tok, via string }
+	probes := []probe{{"revoked token", tok.Token, "http"}, {"revoked token", tok.Token, "ws"}, {"never-issued token", never, "http"}, {"never-issued token", never, "ws"}}
+	res := make([]string, len(probes))
+	var wg sync.WaitGroup
+	for i, p := range probes {
+		wg.Add(1)
+		go func(i int, p probe) {
+			defer wg.Done()
+			if p.via == "http" {
+				d, rs := r.httpDo("GET", c09Prefix+"/network/peer", "Bearer "+p.tok, true) // a handler that does not touch the database
+				res[i] = fmt.Sprintf("%s status=%d", d, rs.Status)
+				if rs.Status >= 200 && rs.Status < 400 {
+					res[i] = "accepted " + res[i]
+				}
+			} else {
+				res[i] = r.wsConnectOnce(p.tok)
+				if res[i] == "connected" {
+					res[i] = "accepted connected"
+				}
+			}
+		}(i, p)
+	}
+	wg.Wait()
+	for i, p := range probes {
+		c.R.OracleChecked++
+		c.R.Count("credential presented while the token store cannot be read", 1)
+		if strings.HasPrefix(res[i], "accepted") {
+			r.fail(fmt.Sprintf("a %s was accepted on %s while the token store could not be read (another connection holds the SQLite file exclusively): the lookup failure was taken for a valid token", p.what, p.via),
+				"refused (401 / disconnect) or an error answer", res[i], "c10-accepted-while-store-unreadable:"+p.via)
+		}
 	}
 	return nil
 }
